@@ -194,6 +194,7 @@ type FCtx struct {
 	eventsTouched map[string]string
 	LockChecks    bool
 	LockSweep     bool
+	AutoLocks     bool
 	inGlobalFact  bool
 	entry         *State
 	topBindings   *Bindings
